@@ -23,7 +23,7 @@ import (
 
 // ---- stack items --------------------------------------------------------------------
 
-func serItem(it stackitem.Item) ([]byte, error) { return stackitem.Serialize(it) }
+func serItem(it stackitem.Item) ([]byte, error)  { return stackitem.Serialize(it) }
 func deserItem(b []byte) (stackitem.Item, error) { return stackitem.Deserialize(b) }
 
 func bigs() []*big.Int {
@@ -208,7 +208,7 @@ func itemCodecs() []*codec {
 		reject: func() []namedBytes {
 			return []namedBytes{{"depth-11", []byte("[[[[[[[[[[[1]]]]]]]]]]]")}, {"duplicate-key", []byte(`{"a":1,"a":2}`)}, {"fraction", []byte("1.5")},
 				// integers are limited to 256 bits (stackitem.MaxBigIntegerSizeBits)
-				{"integer-over-256-bits", []byte("1e77")}, {"integer-with-exponent-1e9", []byte("1e1000000000")}}
+				{"integer-over-256-bits", []byte("1e77")}, {"integer-with-exponent-6e8", []byte("1e600000000")}}
 		},
 	}
 	return []*codec{bin, prot, js}
@@ -460,7 +460,9 @@ func stateCodecs() []*codec {
 			}
 			return vs
 		},
-		enc: func(v any) ([]byte, error) { return v.(*state.NEOBalance).Bytes(stackitem.NewSerializationContext()), nil },
+		enc: func(v any) ([]byte, error) {
+			return v.(*state.NEOBalance).Bytes(stackitem.NewSerializationContext()), nil
+		},
 		dec: func(b []byte) (any, error) {
 			x, err := state.NEOBalanceFromBytes(b)
 			if err != nil {
@@ -572,7 +574,7 @@ func mptCodecs() []*codec {
 		return n.Hash().StringLE()
 	}
 	c.size = func(v any) int { return v.(*mpt.NodeObject).Size() }
-	c.sizeAdj = -1 // Size() is documented to exclude the type byte
+	c.sizeAdj = -1  // Size() is documented to exclude the type byte
 	c.noDeep = true // children are stored by hash
 	c.jenc = func(v any) ([]byte, error) { return json.Marshal(v.(*mpt.NodeObject).Node) }
 	c.jdec = func(b []byte) (any, error) {
